@@ -37,13 +37,15 @@ MANIFEST = dict(
     technique='reference-model monitor: resolver written from the manual predicts the value behind every exported reference; code file read by the '
               'independent reader, final symbol dump (hook H1) as neutral witness, diagnostic events (hook H4) for planted faults',
     text='Held on the executions of this run: in generated programs with section trees up to depth 4, same-named symbols on several levels, '
-         'definitions before and after use, qualifiers name[section] / name[] / name[PARENT0..n], PUBLIC/GLOBAL exports to every ancestor, FORWARD, '
-         'macro-local labels, $$ named, + - / nameless (sight 3) and .composed temporaries, EQU/SET/label redefinition rules and PUSHV/POPV, with '
-         'and without -U, every reference carried the value of the definition the manual prescribes, the final symbol table held every symbol in '
-         'the section the manual assigns it to, and every planted rule violation was refused with the documented error number on its line.',
+         'definitions before and after use (including programs that need no second pass, where a global found first must still be replaced by the '
+         'later local), qualifiers name[section] / name[] / name[PARENT0..4] (PARENT5..9 refused), PUBLIC/GLOBAL exports to every ancestor, FORWARD, '
+         'macro-local labels and the proc/endp macro pair, $$ named, + - / nameless (sight 3) and .composed temporaries, names up to 230 characters '
+         'differing in the last one, EQU/SET/label redefinition rules and PUSHV/POPV of integer and string symbols, with and without -U, every '
+         'reference carried the value of the definition the manual prescribes, the final symbol table held every symbol in the section the manual '
+         'assigns it to, and every planted rule violation was refused with the documented error number on its line.',
     note='Only constructs whose outcome the manual defines are generated (no qualifier on definitions, no POPV into constants, no reads of a '
-         'variable before its first assignment of the pass, no temporaries across section or macro boundaries, no nested macro calls, literal '
-         'values only). Trusts vf/pfile.py and the hook trace.')
+         'variable before its first assignment of the pass, no temporaries across section or macro boundaries, no nested macro calls, no section '
+         'named like one of its parents, literal values only). Trusts vf/pfile.py and the hook trace.')
 REGISTERED = True
 
 CPUS = {
